@@ -1,2 +1,14 @@
+-- root module: everything the checks build (models, proofs, property theorems, ties)
 import GqlVerif.Base.Json
 import GqlVerif.Misc.CacheControl
+import GqlVerif.Gql.Lex
+import GqlVerif.Gql.Coerce
+import GqlVerif.Plan.Sched
+import GqlVerif.Props.C05
+import GqlVerif.Props.C06
+import GqlVerif.Props.C08
+import GqlVerif.Props.C16
+import GqlVerif.Ties.C05
+import GqlVerif.Ties.C06
+import GqlVerif.Ties.C08
+import GqlVerif.Ties.C16
